@@ -349,7 +349,7 @@ def shape_set(rng, objs, shape):
 
 
 # --------------------------------------------------------------------------- direct oracle (B)
-def oracle_rt(cin, rows):
+def oracle_rt(cin, rows, links_by_inode_only=False):
     """generate_contents(write_set(c)) against the statement of the property, without the model:
     every entry comes back at the location a live merge would put it (directory symlinks of the set
     resolved), with the same type/mode/owner/mtime/target/data/device; nothing else but missing
@@ -446,7 +446,7 @@ def oracle_rt(cin, rows):
         for l2, e2 in files[i + 1:]:
             same_out = got[l1][7] == got[l2][7]
             same_key = ikey(e1) is not None and ikey(e1) == ikey(e2)
-            if same_key and len(groups[ikey(e1)]) == 1:
+            if same_key and (links_by_inode_only or len(groups[ikey(e1)]) == 1):
                 want = True
             elif same_key and attrs(e1) == attrs(e2):
                 continue
@@ -476,6 +476,46 @@ def in_symdir_chain_class(cin):
                                            or s1["loc"].startswith(s2["loc"] + "/")):
                 return True
     return False
+
+
+# --------------------------------------------------------------------------- read-side oracle (B) for rd
+def members_as_set(members):
+    """what a well-formed foreign archive SAYS, written without the model: one entry per member at the
+    absolute normalised path of its name (the "." member is the root itself), hardlink members being
+    further names of the file they (transitively) point at.  Returns None when the archive is outside the
+    statement (a link to nothing, an unknown member type, two members for one path)."""
+    out, by_loc = [], {}
+    kinds = {0: "reg", 1: "reg", 2: "sym", 3: "dev", 4: "dev", 5: "dir", 6: "fifo"}
+    for n, m in enumerate(members):
+        name, ty, mode, uid, gid, mt, size, link, mj, mn, data = m
+        if ty not in kinds:
+            return None
+        loc = os.path.normpath("/" + name.strip("/"))
+        if loc == "/":
+            # the root member as tar writes it ("." / "./"); other spellings ("./.") come back as a "/"
+            # entry (model and code agree) -- outside what the statement speaks about
+            if ty == 5 and name.strip("/") == ".":
+                continue
+            return None
+        e = {"loc": loc, "k": kinds[ty], "mode": mode, "uid": uid, "gid": gid, "mtime": mt,
+             "target": link if ty == 2 else "", "dev": None, "ino": None, "data": 0, "size": 0,
+             "major": mj if ty in (3, 4) else 0, "minor": mn if ty in (3, 4) else 0}
+        if ty == 3:
+            e["mode"] |= stat.S_IFCHR
+        if ty == 4:
+            e["mode"] |= stat.S_IFBLK
+        if ty == 0:
+            e.update(dev=1, ino=n + 1, data=data, size=size)
+        if ty == 1:
+            tgt = by_loc.get(os.path.normpath(os.path.join("/", link)))
+            if tgt is None or tgt["k"] != "reg":
+                return None
+            e.update(dev=1, ino=tgt["ino"], data=tgt["data"], size=tgt["size"])
+        if loc in by_loc:
+            return None
+        by_loc[loc] = e
+        out.append(e)
+    return out
 
 
 # --------------------------------------------------------------------------- foreign archives
@@ -676,6 +716,18 @@ def main(chk: Check):
             rows = guarded(lambda: canon_out(impl_read(p, codec), ids, t0, time.time(), mlocs))
             rd_cases.append((clist([c_member(m) for m in members], "member"), rows))
             chk.nontrivial(("rd", shape, tuple(tuple(m[:2]) for m in members)))
+            # (B) read side, directly on the implementation: the archive read as a set must be the set the
+            # members describe, symlinked directories resolved, hardlink members sharing their target's inode
+            said = members_as_set(members)
+            if said is not None:
+                bad = oracle_rt(said, rows, links_by_inode_only=True)
+                if bad is not None:
+                    if in_symdir_chain_class(said) and chk.known_finding("symdir-chain", {"members": members}):
+                        pass
+                    else:
+                        prop_failures.append({"stream": "rd", "shape": shape, "codec": codec, "failure": bad,
+                                              "members": members, "set": said, "read_back": rows})
+                chk.cov["streams"]["rd-oracle"] = chk.cov["streams"].get("rd-oracle", 0) + 1
             if i < 1:
                 chk.sample({"stream": "rd", "shape": shape, "codec": codec, "members": members, "read_back": rows})
             os.unlink(p)
